@@ -300,7 +300,7 @@ class SimReadFile:
         return True
 
     def read(self, size=-1):
-        if self._pos >= self._after:
+        if self._pos >= self._after or self._after == 0:
             self._fail()
         limit = self._after
         if size is None or size < 0:
@@ -320,6 +320,8 @@ class SimReadFile:
         return out
 
     def readline(self, size=-1):
+        if self._after == 0:
+            self._fail()      # the very first read fails, whatever the file holds
         nl = b'\n' if self._binary else '\n'
         i = self._data.find(nl, self._pos)
         end = len(self._data) if i < 0 else i + 1
